@@ -3762,3 +3762,140 @@ mutant('C06-normalisation-in-whole-blocks', 'C06',
          "                        self.data[ib*5000:ib*5000+5000, :]))\n"
          "            self._data = out\n")],
        'R-TILE/whole-axis', 'to_log2CPM_in_place')
+
+# ----------------------------------------------------------------------
+# round 9
+# ----------------------------------------------------------------------
+_VH = P+'validation/validate_h5ad.py'
+_FSM = P+'cli/from_specified_markers.py'
+
+twin('C03-twin-aggregate-type-from-sums', 'C03',
+     'aggregated vote totals typed from the largest per-cell total',
+     [(_EL, "    vote_array_agg = np.zeros((n_query, n_unq), dtype=int)\n",
+       "    vote_dtype = choose_int_dtype(\n"
+       "        (0, vote_array.sum(axis=1).max()))\n"
+       "    vote_array_agg = np.zeros((n_query, n_unq), dtype=vote_dtype)\n")])
+mutant('C05-merged-indptr-typed-from-data', 'C05',
+       'merge_csr allocates indptr with the element type of the data',
+       [(_SU, "    indptr = np.zeros(n_indptr, dtype=int)\n",
+         "    indptr = np.zeros(n_indptr, dtype=data_list[0].dtype)\n")],
+       'R-DTYPE/borrowed-type', 'merge_csr')
+twin('C05-twin-merged-indices-typed-from-indices', 'C05',
+     'merge_csr allocates indices with the widest of int and the type of '
+     'the incoming indices',
+     [(_SU, "    indices = np.zeros(n_data, dtype=int)\n",
+       "    indices = np.zeros(\n"
+       "        n_data,\n"
+       "        dtype=np.promote_types(int, indices_list[0].dtype))\n")])
+mutant('C08-root-group-when-list-empty', 'C08',
+       'assemble_query_data reads the root group when the parent has an '
+       'empty list',
+       [(_MT, "        this_grp = in_file[parent_grp]\n",
+         "        this_grp = in_file[parent_grp]\n"
+         "        if len(this_grp['reference']) == 0:\n"
+         "            this_grp = in_file['None']\n")],
+       'R-PROV/group-of-parent', 'assemble_query_data')
+twin('C08-twin-group-key-through-local', 'C08',
+     'group key copied into a local before the lookup',
+     [(_MT, "        this_grp = in_file[parent_grp]\n",
+       "        grp_key = parent_grp\n"
+       "        this_grp = in_file[grp_key]\n")])
+mutant('C09-children-hands-out-internal-list', 'C09',
+       'TaxonomyTree.children returns the stored list; '
+       'assemble_query_data sorts it in place',
+       [(_TT, "        return list(self._data[level][node])\n",
+         "        return self._data[level][node]\n")],
+       'R-ALIAS/tree-state', 'children')
+twin('C09-twin-cell-set-filter-on-a-copy', 'C09',
+     'cell_set restriction moved out of the loop, on the copy that '
+     'leaf_to_cells returns',
+     [(_PA, "    cluster_list = list(leaf_to_cells.keys())\n",
+       "    if cell_set is not None:\n"
+       "        for cluster in leaf_to_cells:\n"
+       "            leaf_to_cells[cluster] = [\n"
+       "                cell for cell in leaf_to_cells[cluster]\n"
+       "                if str(cell) in cell_set]\n"
+       "    cluster_list = list(leaf_to_cells.keys())\n")])
+twin('C13-twin-contiguous-fast-path-unsorted', 'C13',
+     'contiguous requests read as one slice, then put back into the '
+     'requested order',
+     [(_AI, "        with self.h5_handler as h5_handle:\n"
+       "            raw = h5_handle[self.data_key][sorted_row_idx, :]\n"
+       "        output = np.zeros(raw.shape, dtype=raw.dtype)\n",
+       "        n_idx = len(sorted_row_idx)\n"
+       "        if n_idx > 0 and sorted_row_idx[-1]-sorted_row_idx[0] "
+       "== n_idx-1 \\\n"
+       "                and len(np.unique(sorted_row_idx)) == n_idx:\n"
+       "            raw = self.get_chunk(\n"
+       "                r0=sorted_row_idx[0],\n"
+       "                r1=sorted_row_idx[-1]+1)[0]\n"
+       "        else:\n"
+       "            with self.h5_handler as h5_handle:\n"
+       "                raw = h5_handle[self.data_key][sorted_row_idx, :]\n"
+       "        output = np.zeros(raw.shape, dtype=raw.dtype)\n")])
+mutant('C15-results-need-a-key-nobody-stores', 'C15',
+       'blob_to_hdf5 tests for a key that the mapping never stores',
+       [(_OUT, "    elif 'results' not in output_blob:\n",
+         "    elif 'result' not in output_blob:\n")],
+       'R-AGREE/hdf5-results-condition', 'result')
+twin('C15-twin-results-condition-as-loop', 'C15',
+     'the two membership tests of blob_to_hdf5 written as a loop',
+     [(_OUT, "    if 'taxonomy_tree' not in output_blob:\n"
+       "        run_succeeded = False\n"
+       "    elif 'results' not in output_blob:\n"
+       "        run_succeeded = False\n",
+       "    for needed in ('taxonomy_tree', 'results'):\n"
+       "        if needed not in output_blob:\n"
+       "            run_succeeded = False\n")])
+mutant('C15-probability-dataset-filled-with-constant', 'C15',
+       'the HDF5 writer fills bootstrapping_probability with 1.0',
+       [(_OUT, "            prob[i_cell, i_level] = cell[level]"
+         "['bootstrapping_probability']\n",
+         "            prob[i_cell, i_level] = 1.0\n")],
+       'R-SCHEMA/hdf5-field-map', 'bootstrapping_probability')
+mutant('C19-stale-validated-file-never-removed', 'C19',
+       'the branch that removes a stale validated file is deleted',
+       [(_VH, "    else:\n"
+         "        if new_h5ad_path.exists():\n"
+         "            new_h5ad_path.unlink()\n", "")],
+       'R-FRESH/stale-output-removed', '_validate_h5ad')
+twin('C19-twin-stale-file-removed-up-front', 'C19',
+     'a stale validated file is removed before it is known whether a new '
+     'one is written',
+     [(_VH, "    if write_to_new_path:\n"
+       "        n_genes = len(var_original)\n",
+       "    if new_h5ad_path.exists():\n"
+       "        new_h5ad_path.unlink()\n"
+       "    if write_to_new_path:\n"
+       "        n_genes = len(var_original)\n"),
+      (_VH, "    else:\n"
+       "        if new_h5ad_path.exists():\n"
+       "            new_h5ad_path.unlink()\n", "")])
+mutant('C20-process-label-with-path-through-local', 'C20',
+       'worker processes are labelled with the query path, via a local',
+       [(_EL, "        p = multiprocessing.Process(\n"
+         "                target=_run_type_assignment_on_h5ad_worker,\n",
+         "        label = f\"{query_h5ad_path} rows {r0}:{r1}\"\n"
+         "        p = multiprocessing.Process(\n"
+         "                name=label,\n"
+         "                target=_run_type_assignment_on_h5ad_worker,\n")],
+       'R-ROLE/path-in-message/message-only',
+       'run_type_assignment_on_h5ad_cpu')
+twin('C20-twin-message-through-local', 'C20',
+     'a message with a path in it is built in a local, then raised',
+     [(_AI, "            raise RuntimeError(\n"
+       "                f\"{h5ad_path} is not a file\")\n",
+       "            msg = f\"{h5ad_path} is not a file\"\n"
+       "            raise RuntimeError(msg)\n")])
+mutant('C04-indptr-typed-from-largest-gene-index', 'C04',
+       '_lookup_to_sparse sizes the indptr type from the largest stored '
+       'value',
+       [(_MK, "    indptr_dtype = choose_int_dtype((0, n_indices))\n",
+         "    indptr_dtype = choose_int_dtype((0, max_indices))\n")],
+       'R-CAP/bound-kind', '_lookup_to_sparse')
+twin('C04-twin-indices-type-from-both', 'C04',
+     '_lookup_to_sparse sizes the indices type from the larger of the '
+     'largest value and the number of entries',
+     [(_MK, "    indices_dtype = choose_int_dtype((0, max_indices))\n",
+       "    indices_dtype = choose_int_dtype(\n"
+       "        (0, max(max_indices, n_indices)))\n")])
